@@ -57,6 +57,7 @@ type harness struct {
 	kind  storeKind
 	mode  string
 	enum  bool
+	wiped string // set once a replica of a multiplexed Tan store was wiped (RemoveNodeData / ImportSnapshot)
 	disk  *simfs.Disk
 	view  *simfs.View
 	db    raftio.ILogDB
@@ -546,7 +547,15 @@ func (h *harness) tanDBs() int {
 
 // ---- running operations ----
 
-func (h *harness) c09(oracle, detail string) { h.violate("C09", oracle, "%s", detail) }
+func (h *harness) c09(oracle, detail string) {
+	if h.wiped != "" {
+		// what follows the wipe of one replica (RemoveNodeData / ImportSnapshot)
+		// of a store that multiplexes several replicas over one Tan db is tagged:
+		// the recorded finding is about that history only
+		detail += " [cause=after-" + h.wiped + "-on-shared-tan-db]"
+	}
+	h.violate("C09", oracle, "%s", detail)
+}
 
 // violate reports an oracle firing and ends the run: once the store and the
 // model have diverged nothing that follows means anything, whichever property
@@ -673,6 +682,9 @@ func (h *harness) doOp(op *wop) {
 			return
 		}
 		if op.kind == opImport || op.kind == opRemoveNode {
+			if h.db != nil && h.kind.String() == "tan-multiplexed" {
+				h.wiped = "wipe"
+			}
 			h.checkOthers(op)
 		}
 		if op.kind == opReopen || op.kind == opImport {
